@@ -397,6 +397,13 @@ def check(repo, rep, tier):
                         'rendering the second n-best tree of a sentence raises StopIteration (or silently writes nothing), and the whole batch with it')
     from .c11 import r_gather
     r_gather(repo, rep, 'R19.5')
+    rep.rule('R19.6', 'no printer reads a local on a path where it was never assigned; the labels of a returned tree are the grammar\'s (the printers\' tables are keyed by them); '
+                      'the conll head column is computed for every tree shape')
+    from ..lints import r_unbound_reads
+    r_unbound_reads(repo, rep, 'R19.6', repo.py_files('depccg/printer'), 'the format cannot be written at all')
+    rp.r_retrieve_tree(repo, rep, 'R19.6', {'labels'})
+    from .c07 import r_conll_heads
+    r_conll_heads(repo, rep, 'R19.6')
     nf, ns = r_feature_and_shape(repo, rep)
     rep.floor('feature member reads in printers', nf, 1)
     rep.floor('shape-specific reads in category printers', ns, 10)
